@@ -59,6 +59,9 @@ func driveC16(t *testing.T, out *vEmitter) {
 		{"X-Forwarded-For", "10.1.2.3"}, {"X-Real-IP", "10.1.2.3"}, {"X-ProxyUser-IP", "10.1.2.3"}, {"X-Envoy-External-Address", "10.1.2.3"}, {"CF-Connecting-IP", "10.1.2.3"},
 		{"Forwarded", "for=10.1.2.3;host=evil.com;proto=https"},
 		{"X-Forwarded-Uri", "/api/v1/items"}, {"X-Forwarded-Uri", "/ui/"},
+		// list-valued spellings, as a chain of proxies produces them
+		{"X-Forwarded-Proto", "https,http"}, {"X-Forwarded-Proto", "https, https"}, {"X-Forwarded-Host", "evil.com, x.a.example.com"}, {"X-Forwarded-Uri", "/public/x, /y"},
+		{"X-Forwarded-Proto", "HTTPS"}, {"X-Forwarded-Proto", " https"},
 	}
 	type cfg struct {
 		name string
